@@ -346,7 +346,6 @@ def c16_oracle(G, uri, work):
         dt_builtin = (dtrow["NodeId"].namespace == 0 and dtrow["BrowseName"] in simple and dtrow["NodeClass"] == "UADataType")
         if dtrow["DisplayName"] in simple and not dt_builtin: causes.add("displayname-collision")
         if isinstance(v, (T.UAListOf, T.UAEnumeration)): continue
-        if isinstance(v, T.UANodeId): causes.add("nodeid-value-class")
         if name not in simple and dt_builtin: causes.add("structure-value-vs-builtin-type")
         if name in simple and dt_builtin and dtrow["BrowseName"] != name: offenders.append(r["DisplayName"])
     want = ["accepted"] if not offenders else ["rejected", sorted(offenders)]
